@@ -198,4 +198,9 @@ class MatrixData:
         """Imports textual data to a file
 
         """        
-        self.data = numpy.loadtxt(filename)
+        # complex data are exported as complex numbers; they cannot be
+        # read as floats
+        try:
+            self.data = numpy.loadtxt(filename)
+        except ValueError:
+            self.data = numpy.loadtxt(filename, dtype=complex)
